@@ -265,6 +265,7 @@ pub fn main(args: &util::Args) {
             src_forms: i % 4 != 1,
             lit_field_effects: i % 20 == 7,
             nested_patterns: i % 4 == 1,
+            logic_rhs_shapes: i % 5 == 2,
             ..Default::default()
         };
         let (src, feats) = crate::progen::gen_program(&mut rng, cfg);
